@@ -935,6 +935,29 @@ def execute(trace, ctx=None):
                         raise Violation('argspec', 'getargspec(object%s).%s = %r, f has %r' % ([l['t'] for l in o['chain']], fld, gv, getattr(want, fld)), k)
                 res.probe('argspec-checked')
                 f0_ = funcs[o['fid']][0]
+                if k % 5 == 1:
+                    # a plain function whose defaults are changed after it was asked about once: the next answer is about the
+                    # function as it is now (inspect works that way); then one decorator OBJECT used for two functions
+                    def pf(a, b=1, c=2):
+                        return (a, b, c)
+                    try:
+                        getargspec(pf), getcallargs(pf, 0)
+                        pf.__defaults__ = (7, 8)
+                        d1_ = getargspec(pf).defaults
+                        c1_ = getcallargs(pf, 0)
+                    except Exception as e:
+                        raise Violation('argspec', 'getargspec / getcallargs of a plain function raised %s: %s' % (type(e).__name__, e), k)
+                    if tuple(d1_ or ()) != (7, 8) or not _deep_same(_norm_callargs(c1_), _norm_callargs(inspect.getcallargs(pf, 0))):
+                        raise Violation('argspec', 'after its defaults were set to (7, 8) a plain function is reported with defaults %r, getcallargs(pf, 0) = %r' % (d1_, c1_), k)
+                    from pyg_base import cache_func
+                    deco_ = cache_func()
+                    ev1_, ev2_ = [], []
+                    c1f_ = deco_(lambda a: ev1_.append(a) or ('one', a))
+                    c2f_ = deco_(lambda a: ev2_.append(a) or ('two', a))
+                    r_ = [c1f_(2), c2f_(2), c1f_(2), c2f_(3)]
+                    if r_ != [('one', 2), ('two', 2), ('one', 2), ('two', 3)] or ev1_ != [2] or ev2_ != [2, 3]:
+                        raise Violation('not-transparent', 'one cache_func() decorator object applied to two functions: results %r, evaluations %r / %r' % (r_, ev1_, ev2_), k)
+                    res.probe('decorator-object-used-for-two-functions')
                 if k % 3 == 0:
                     # f behind an ordinary functools.wraps decorator: what can be CALLED is (*args, **kwargs), and that is what
                     # inspect reports for it (it does not look through __wrapped__); the library must agree with inspect
